@@ -36,8 +36,8 @@ TRUSTED = [
     "hand-written model of index.rs / index/bang_operator.rs / symbol_map/typ.rs / handlers/diagnostics.rs in "
     "coq/model/{Scope,BangOps,Indexer}.v, tied to the code by the correspondence run of this check "
     "(diagnostics as (file, range, message class) multisets on well-formed programs and on every mutant) AND, for Core programs, by "
-    "translation + proof: the indexer functions of IndexerSource, all bang operators, scope.rs, context.rs (entry below); "
-    "symbol_map/typ.rs (coq/model/Typ.v), handlers/diagnostics.rs and the accessor table remain trusted tables",
+    "translation + proof: the indexer functions of IndexerSource, all bang operators, scope.rs, context.rs, symbol_map/typ.rs "
+    "(entry below); handlers/diagnostics.rs and the accessor table remain trusted tables",
     "parse errors (C04's subject) reach the model as ranges: those of the MODEL parser (bridge unit), required equal "
     "(range and message) to those of the real parser on every workspace of the run",
     "message-class table lib/scopelib.py MSG_CLASSES (message text -> class)",
